@@ -5,7 +5,7 @@ from harness.oracles import all as ALL
 ID = 'C06'
 UNITS = ['event_metrics', 'transcription_scores', 'multipitch_metrics', 'seg_cluster_q', 'hier_measures', 'pattern_scores']
 TRANSLATORS = []
-NOT_COVERED = 'V-measure, NMI/AMI symmetry and chord over/under-segmentation are covered by the oracle only.'
+NOT_COVERED = 'AMI symmetry is covered by the oracle only (the expected-MI term is not modelled); V-measure, NMI, the NCE triple, L-measure and chord over-/under-segmentation swaps are theorems.'
 ASSUMPTIONS = ['exact-arithmetic lattices for the correspondence (DESIGN.md section 2.1); NumPy/SciPy primitives as modelled per module']
 
 oracle_search = propgen.budgeted([ALL.for_property(ID)])
